@@ -61,7 +61,8 @@ class Binary(Sub):
     backends = ("py",)
     n = {"quick": 16000, "thorough": 500000}
     shards = {"quick": 4, "thorough": 16}
-    rule = "pairs (Duration|timedelta, Duration|timedelta) in the three mixed arrangements; non-trivial: operand types differ or the result crosses zero or an operand reaches 2^31 s"
+    rule = ("pairs (Duration|timedelta, Duration|timedelta) in the three mixed arrangements, incl. the ends of timedelta's range (max, min and neighbours); non-trivial: operand types "
+            "differ or the result crosses zero or an operand reaches 2^31 s")
 
     def strategy(self, ctx):
         return st.fixed_dictionaries({"a": td_slots | td_limits, "b": td_slots | td_limits})
